@@ -124,6 +124,13 @@ def cases(seed, count, order=None, nphi=None, synth_frac=0.4):
             kw['p2'] = float(-rng.uniform(0.2, 2.0) * 1e5 * kw.get('B0', 1.0) ** 2 / kw['rc'][0] ** 2)
         if k % 4 == 1 and not kw.get('sigma0'):
             kw['sigma0'] = float(rng.uniform(0.1, 0.5) * rng.choice([-1, 1]))
+        if k % 5 == 3:
+            # sparse harmonics: one harmonic carried only by (rs, zc), the next only by (rc, zs) - exact zeros in some of the
+            # four coefficient arrays (a stellarator-symmetric curve seen from a quarter-period-displaced origin looks so)
+            a = float(abs(kw['rc'][1]) if len(kw['rc']) > 1 and kw['rc'][1] else 0.04 * kw['rc'][0] / (1 + kw.get('nfp', 1) ** 2))
+            sg = [float(rng.choice([-1, 1])) for _ in range(4)]
+            kw['rc'] = [kw['rc'][0], 0.0, sg[0] * 0.07 * a]; kw['zs'] = [0.0, 0.0, sg[1] * 0.07 * a]
+            kw['rs'] = [0.0, sg[2] * a, 0.0]; kw['zc'] = [0.0, sg[3] * a, 0.0]
         try:
             q = build(c)
         except Exception as ex:  # construction of an inadmissible random input may fail inside LAPACK
